@@ -152,6 +152,8 @@ func (v *venv) runBlock(cs []*call) {
 	b := v.b
 	ps := make([]*world.Pending, len(cs))
 	for _, c := range cs {
+		// membership is decided when the block is executed (an earlier decision may have replaced the list)
+		c.alpha = c.pub != nil && v.isAlpha(c.pub)
 		if c.pre != nil {
 			c.pre()
 		}
